@@ -27,6 +27,27 @@
 #include "runtime/source.h"
 #include "runtime/filter.h"
 
+/* every output line starts with "@<thread id> " (the acting thread; the model's transitions are per thread) */
+#include <stdarg.h>
+static int g_bol = 1;
+int vh_printf(const char* fmt, ...)
+{
+    static char buf[1 << 16];
+    va_list ap;
+    va_start(ap, fmt);
+    int n = vsnprintf(buf, sizeof buf, fmt, ap);
+    va_end(ap);
+    if (n < 0) return n;
+    if ((size_t)n >= sizeof buf) n = (int)sizeof buf - 1;
+    for (int i = 0; i < n; ++i) {
+        if (g_bol) { fprintf(stdout, "@%d ", vs_self()); g_bol = 0; }
+        fputc(buf[i], stdout);
+        if (buf[i] == '\n') g_bol = 1;
+    }
+    return n;
+}
+#define printf vh_printf
+
 static size_t g_ring = 1 << 12, g_filtring = 1 << 12;
 static struct AcquireRuntime* rt = 0;
 static struct AcquireProperties props;
@@ -46,6 +67,8 @@ static void cb_sig_stop_sink(const struct video_source_s* s) { printf("C s%d sig
 
 static struct channel* g_sink_in[2];
 static struct channel* g_filter_in[2];
+static struct video_sink_s* g_sink[2];
+static struct video_filter_s* g_filter[2];
 
 enum DeviceStatusCode
 vh_video_sink_init(struct video_sink_s* self, uint8_t stream_id, size_t cap, void (*sig_stop_source)(const struct video_sink_s*))
@@ -54,6 +77,7 @@ vh_video_sink_init(struct video_sink_s* self, uint8_t stream_id, size_t cap, voi
     real_sig_stop_source[stream_id & 1] = sig_stop_source;
     enum DeviceStatusCode r = video_sink_init(self, stream_id, g_ring, cb_sig_stop_source);
     g_sink_in[stream_id & 1] = &self->in;
+    g_sink[stream_id & 1] = self;
     return r;
 }
 enum DeviceStatusCode
@@ -62,6 +86,7 @@ vh_video_filter_init(struct video_filter_s* self, uint8_t stream_id, size_t cap,
     (void)cap;
     enum DeviceStatusCode r = video_filter_init(self, stream_id, g_filtring, out);
     g_filter_in[stream_id & 1] = &self->in;
+    g_filter[stream_id & 1] = self;
     return r;
 }
 enum DeviceStatusCode
@@ -109,6 +134,94 @@ void __wrap_channel_abort_write(struct channel* self)
     const char* nm = chan_name(self, &s);
     __real_channel_abort_write(self);
     printf("C s%d abort_write %s\n", s, nm);
+}
+
+/* ---- the remaining channel operations (linked with --wrap): "W" lines for the writer side, "R" lines for readers */
+void* __real_channel_write_map(struct channel* self, size_t nbytes);
+void __real_channel_accept_writes(struct channel* self, uint32_t tf);
+struct slice __real_channel_read_map(struct channel* self, struct channel_reader* reader);
+void __real_channel_read_unmap(struct channel* self, struct channel_reader* reader, size_t consumed);
+void* __wrap_channel_write_map(struct channel* self, size_t nbytes)
+{
+    int s;
+    const char* nm = chan_name(self, &s);
+    printf("W s%d %s wmap-enter n=%zu\n", s, nm, nbytes);
+    void* p = __real_channel_write_map(self, nbytes);
+    if (p) printf("W s%d %s wmap ok off=%zu n=%zu\n", s, nm, (size_t)((uint8_t*)p - self->data), nbytes);
+    else printf("W s%d %s wmap null n=%zu\n", s, nm, nbytes);
+    return p;
+}
+void __wrap_channel_accept_writes(struct channel* self, uint32_t tf)
+{
+    int s;
+    const char* nm = chan_name(self, &s);
+    __real_channel_accept_writes(self, tf);
+    printf("W s%d %s accept %u\n", s, nm, tf);
+}
+static const char* reader_name(struct channel* c, struct channel_reader* r, int s)
+{
+    if (s >= 0 && c == g_sink_in[s]) return r == &g_sink[s]->reader ? "sink" : "mon";
+    if (s >= 0 && c == g_filter_in[s]) return r == &g_filter[s]->reader ? "filt" : "other";
+    return "?";
+}
+/* what each reader currently has mapped, as frame sizes (to turn consumed bytes into frames) */
+static struct { struct channel_reader* r; int n; size_t total; size_t sz[4096]; } g_rm[8];
+static int rm_slot(struct channel_reader* r)
+{
+    for (int i = 0; i < 8; ++i) if (g_rm[i].r == r) return i;
+    for (int i = 0; i < 8; ++i) if (!g_rm[i].r) { g_rm[i].r = r; return i; }
+    return 0;
+}
+struct slice __wrap_channel_read_map(struct channel* self, struct channel_reader* reader)
+{
+    int s;
+    const char* nm = chan_name(self, &s);
+    const char* rn = reader_name(self, reader, s);
+    printf("R s%d %s %s rmap-enter\n", s, nm, rn);
+    struct slice sl = __real_channel_read_map(self, reader);
+    size_t nbytes = (size_t)(sl.end - sl.beg);
+    int k = rm_slot(reader);
+    g_rm[k].n = 0;
+    g_rm[k].total = nbytes;
+    printf("R s%d %s %s rmap nbytes=%zu align=%d status=%d :", s, nm, rn, nbytes, (int)((uintptr_t)sl.beg & 7), (int)reader->status);
+    const unsigned char* p = sl.beg;
+    const unsigned char* e = sl.end;
+    int guard = 0;
+    while (p && p < e && guard++ < 100000) {
+        const struct VideoFrame* f = (const struct VideoFrame*)p;
+        size_t sz = f->bytes_of_frame;
+        if (sz < sizeof(struct VideoFrame) || (size_t)(e - p) < sz) { printf(" BADFRAME(size=%zu left=%zu)", sz, (size_t)(e - p)); break; }
+        size_t n = (size_t)f->shape.dims.width * f->shape.dims.height * bytes_of_type(f->shape.type);
+        uint32_t hsh = 2166136261u;
+        if (sizeof(struct VideoFrame) + n <= sz)
+            for (size_t j = 0; j < n; ++j) { hsh ^= f->data[j]; hsh *= 16777619u; }
+        printf(" [id=%llu hw=%llu sz=%zu w=%u h=%u t=%d px=%08x]", (unsigned long long)f->frame_id, (unsigned long long)f->hardware_frame_id,
+               sz, f->shape.dims.width, f->shape.dims.height, (int)f->shape.type, hsh);
+        if (g_rm[k].n < 4096) g_rm[k].sz[g_rm[k].n++] = sz;
+        p += sz;
+    }
+    printf("\n");
+    return sl;
+}
+void __wrap_channel_read_unmap(struct channel* self, struct channel_reader* reader, size_t consumed)
+{
+    int s;
+    const char* nm = chan_name(self, &s);
+    const char* rn = reader_name(self, reader, s);
+    int k = rm_slot(reader);
+    int was_mapped = reader->state == ChannelState_Mapped;
+    size_t c = consumed < g_rm[k].total ? consumed : g_rm[k].total, tot = 0;
+    int frames = 0, exact = 1;
+    for (int i = 0; i < g_rm[k].n && tot < c; ++i) {
+        if (tot + g_rm[k].sz[i] <= c) { tot += g_rm[k].sz[i]; ++frames; }
+        else { exact = 0; break; }
+    }
+    if (tot != c) exact = 0;
+    __real_channel_read_unmap(self, reader, consumed);
+    printf("R s%d %s %s runmap mapped=%d frames=%d exact=%d of=%d all=%d\n", s, nm, rn, was_mapped, was_mapped ? frames : 0, exact,
+           was_mapped ? g_rm[k].n : 0, consumed >= g_rm[k].total);
+    g_rm[k].n = 0;
+    g_rm[k].total = 0;
 }
 
 /* ------------------------------------------------------------------ logging of the runtime's reporter */
@@ -251,7 +364,7 @@ int main(void)
         strncpy(prog[nprog++], line, 255);
     }
     struct vs_config c = { 0 };
-    c.seed = (uint64_t)seed; c.trace = trace; c.schedule = sched; c.nschedule = nsched; c.mode = 1; c.max_steps = 400000; c.pct_depth = pct;
+    c.seed = (uint64_t)seed; c.trace = trace; c.schedule = sched; c.nschedule = nsched; c.mode = 1; c.max_steps = 400000; c.pct_depth = pct; c.events = 1;
     vs_init(&c);
     vs_on_stuck(on_stuck);
     vs_register_lib("acquire-driver-common", mock_lib_load);
